@@ -6,4 +6,7 @@ from . import drivers, h5copy, overlay, ovlgroup, ovlguards, ovlread
 def build(reg):
     specs = overlay.add_overlay(reg) + overlay.add_overlay_strings(reg) + overlay.add_writers(reg) + overlay.add_copy_move(reg) + ovlread.add_ovlread(reg) + ovlread.add_ovlread2(reg) + ovlgroup.add_ovlgroup(reg) + h5copy.add_h5copy(reg) + drivers.add_drivers(reg) + ovlguards.add_ovlguards(reg)
     keep = [s for s in specs if "C09" in s.props]
-    return {"verify": keep, "lemmas": [], "trusted": [overlay.T1_READ, overlay.T1_WRITE] + ovlread.T_READ + ovlread.T_WALK + drivers.T_DRV, "assumptions": ["h5py is the reference side of the relation (trusted protocol T1); only the IH5 side is verified against it; the relation itself is checked bounded in lock-step"]}
+    from . import oneliners
+
+    keep = keep + oneliners.add_oneliners(reg, props=("C09",))  # one- and two-line delegations, verified against what other contracts bind them to
+    return {"verify": keep, "lemmas": [], "trusted": oneliners.T_ONE + [overlay.T1_READ, overlay.T1_WRITE] + ovlread.T_READ + ovlread.T_WALK + drivers.T_DRV, "assumptions": ["h5py is the reference side of the relation (trusted protocol T1); only the IH5 side is verified against it; the relation itself is checked bounded in lock-step"]}
